@@ -500,6 +500,72 @@ fn main() {
                 }
                 out.join(";")
             }
+            "ks_opts" => {
+                // ks_opts <name> <leveled|fifo|blob|other> <variant>: open/create with a full set of non-default options
+                use fjall::config::{BlockSizePolicy, BloomConstructionPolicy, CompressionPolicy, FilterPolicy, FilterPolicyEntry, HashRatioPolicy, PinningPolicy, RestartIntervalPolicy};
+                let kind = a[1].to_string();
+                let var: u64 = a.get(2).map(|x| x.parse().expect("variant")).unwrap_or(1);
+                let mk = move || {
+                    let v = var as u32;
+                    let mut c = KeyspaceCreateOptions::default()
+                        .max_memtable_size(1_000_000 * (var + 1))
+                        .manual_journal_persist(var % 2 == 1)
+                        .expect_point_read_hits(var % 2 == 1)
+                        .data_block_size_policy(BlockSizePolicy::new([2_048 * (v + 1), 16_384]))
+                        .data_block_hash_ratio_policy(HashRatioPolicy::new([0.5 * (v as f32), 1.25]))
+                        .data_block_restart_interval_policy(RestartIntervalPolicy::new([4 + v as u8, 9]))
+                        .data_block_compression_policy(CompressionPolicy::new([fjall::CompressionType::None, fjall::CompressionType::Lz4]))
+                        .index_block_compression_policy(CompressionPolicy::new([if var % 2 == 1 { fjall::CompressionType::Lz4 } else { fjall::CompressionType::None }]))
+                        .index_block_pinning_policy(PinningPolicy::new([var % 2 == 1, false, true]))
+                        .filter_block_pinning_policy(PinningPolicy::new([false, var % 2 == 1]))
+                        .index_block_partitioning_policy(PinningPolicy::new([var % 2 == 0, true]))
+                        .filter_block_partitioning_policy(PinningPolicy::new([true, var % 2 == 0, false]))
+                        .filter_policy(FilterPolicy::new([
+                            FilterPolicyEntry::Bloom(BloomConstructionPolicy::BitsPerKey(7.5 + v as f32)),
+                            FilterPolicyEntry::None,
+                            FilterPolicyEntry::Bloom(BloomConstructionPolicy::FalsePositiveRate(0.02)),
+                        ]));
+                    match kind.as_str() {
+                        "fifo" => {
+                            c = c.compaction_strategy(std::sync::Arc::new(fjall::compaction::Fifo::new(1_000_000_000 + var, Some(3_600 + var))));
+                        }
+                        "blob" => {
+                            c = c.with_kv_separation(Some(
+                                fjall::KvSeparationOptions::default()
+                                    .separation_threshold(100 + v)
+                                    .file_target_size(1_000_000 + var)
+                                    .staleness_threshold(0.5)
+                                    .age_cutoff(0.25)
+                                    .compression(fjall::CompressionType::None),
+                            ));
+                        }
+                        "leveled" => {
+                            c = c.compaction_strategy(std::sync::Arc::new(
+                                fjall::compaction::Leveled::default().with_l0_threshold(5 + v as u8).with_table_target_size(32_000_000 + var).with_level_ratio_policy(vec![8.0, 6.0]),
+                            ));
+                        }
+                        _ => {}
+                    }
+                    c
+                };
+                let Some(db) = w.db.as_ref() else { println!("R {} ks_opts => err:NoDb", ln + 1); continue };
+                let r = match db {
+                    Db::Plain(d) => d.keyspace(a[0], mk).map(Ks::Plain),
+                    Db::Opt(d) => d.keyspace(a[0], mk).map(Ks::Opt),
+                    Db::Single(d) => d.keyspace(a[0], mk).map(Ks::Single),
+                };
+                match r {
+                    Ok(k) => {
+                        w.ks.insert(a[0].to_string(), k);
+                        "ok".into()
+                    }
+                    Err(e) => format!("err:{}", errname(&e)),
+                }
+            }
+            "options" => match w.ks.get(a[0]) {
+                Some(k) => fjall::verif::keyspace_options(k.inner()),
+                None => "err:NoKs".into(),
+            },
             "delete_ks" => {
                 let Some(k) = w.ks.remove(a[0]) else { println!("R {} delete_ks => err:NoKs", ln + 1); continue };
                 let keep_handle = a.get(1).map(|x| *x == "keep").unwrap_or(false);
